@@ -4,6 +4,7 @@
 //!   verif-harness gen <family> <profile> <seed> <count> <size> <req-file>
 //!   verif-harness run <req-file> <impl-file>        one impl observation line per request line
 //!   verif-harness candidates <req-file>             smaller variants of the (single) request
+mod cen;
 mod graphgen;
 mod rng;
 mod sp;
@@ -27,6 +28,8 @@ fn gen(family: &str, profile: &str, seed: u64, count: usize, size: usize) -> Vec
                 store::gen_case(&mut r, p, size).request()
             }
             "sp" => sp::gen_case(&mut r, profile, size).request(),
+            "cen" => cen::gen_cen(&mut r, profile, size).request(),
+            "eig" => cen::gen_eig(&mut r, profile, size).request(),
             _ => panic!("unknown family {}", family),
         };
         out.push(line);
@@ -50,6 +53,8 @@ fn run_line(line: &str) -> String {
     match cmd.as_str() {
         "store" => store::observe(&store::Case::parse(&mut t)),
         "sp" => { let c = sp::Case::parse(&mut t); guarded(move || sp::observe_inner(&c)) }
+        "cen" => { let c = cen::CenCase::parse(&mut t); guarded(move || cen::observe_cen(&c)) }
+        "eig" => { let c = cen::EigCase::parse(&mut t); guarded(move || cen::observe_eig(&c)) }
         _ => format!("i.badrequest={}", cmd),
     }
 }
@@ -59,6 +64,8 @@ fn candidates(line: &str) -> Vec<String> {
     match cmd.as_str() {
         "store" => store::candidates(&store::Case::parse(&mut t)),
         "sp" => sp::candidates(&sp::Case::parse(&mut t)),
+        "cen" => cen::candidates_cen(&cen::CenCase::parse(&mut t)),
+        "eig" => cen::candidates_eig(&cen::EigCase::parse(&mut t)),
         _ => vec![],
     }
 }
